@@ -874,7 +874,7 @@ impl Property for C31b {
             .boxed()
     }
     fn budget(&self, tier: Tier) -> Budget {
-        Budget::new(tier.pick(10_000, 2_000_000), tier.pick(8, 16)).min_nontrivial(tier.pick(2_000, 100_000)).case_timeout(60)
+        Budget::new(tier.pick(10_000, 2_000_000), tier.pick(8, 16)).min_nontrivial(tier.pick(800, 100_000)).case_timeout(60)
     }
     fn rule(&self) -> String {
         "one base DynamicFilterPhysicalExpr + 1-2 with_new_children instances; 1-2 updater actors x 1-3 (thorough 1-4) update() calls publishing lit(v) or c0+lit(v) with unique v, \
